@@ -595,9 +595,16 @@ def replay_event(res, path):
     return EXIT_OK
 
 
+# which harness binary replays a case of a given family (a check may borrow families from another property's machine)
+BIN_OF_FAM = {"acc": "tok", "mat": "tok", "matmove": "tok", "swz": "tok", "cam": "rot", "chain": "rot", "srt": "rot", "rot": "rot",
+              "chain20": "chain", "conv": "conv", "move": "conv", "geom": "geom", "hid": "hid", "int": "int", "interp": "interp",
+              "lane": "lane", "lin": "lin", "mask": "mask", "select": "mask", "nopanic": "safe", "slice": "safe", "index": "safe", "serial": "ser"}
+
+
 def replay_dispatch(res, path, binname, only=None, env_keys=("ty",)):
     mm = json.load(open(path))
     fam = mm.get("case", {}).get("fam")
+    binname = BIN_OF_FAM.get(fam, binname)
     if fam == "event":
         return replay_event(res, path)
     if fam == "crash":
